@@ -106,9 +106,42 @@ def checkWith {σ : Type} (m0 : σ) (mstep : σ → Ev → Option σ) (sc : Driv
   let mut nfail := 0
   let mut skipExit : List Nat := []
   let mut ld : Option Sonic.Spec.Ledger.L := some {}
+  -- datagram boundaries (a clause of the driver, outside the monitor the model is proved against): per datagram socket the
+  -- lengths of the datagrams the peer has sent and no read has taken; per datagram read its socket and buffer length
+  let mut dq : List (Nat × List Nat) := []
+  let mut dreads : List (Nat × Nat × Nat) := []
+  let mut lastPeer : Option (Nat × Option Nat) := none    -- the peer action whose result comes next: send n / steal
   for ln in sc.lines do
     i := i + 1
     if ln.kind == '<' then
+      match ln.toks with
+      | "call" :: "peer" :: k :: "send" :: n :: _ => lastPeer := (nat? k).bind fun k => (nat? n).map fun n => (k, some n)
+      | "call" :: "peer" :: k :: "steal" :: _ => lastPeer := (nat? k).map fun k => (k, none)
+      | "call" :: "recvfrom" :: k :: n :: r =>
+        match nat? k, nat? n, opOf r with
+        | some k, some n, some op => dreads := (op, k, n) :: dreads
+        | _, _, _ => pure ()
+      | "ret" :: r :: _ =>
+        match lastPeer with
+        | some (k, some n) => if r == "ok" then dq := Sonic.Spec.Loop.update dq k (Sonic.Spec.Loop.lookup dq k [] ++ [n])
+        | some (k, none) => if r == "ok" then dq := Sonic.Spec.Loop.update dq k ((Sonic.Spec.Loop.lookup dq k []).drop 1)
+        | none => pure ()
+        lastPeer := none
+      | "enter" :: op :: rtok :: r =>
+        match (nat? op).bind fun op => dreads.find? (·.1 == op) with
+        | some (op, k, len) =>
+          dreads := dreads.filter (·.1 != op)
+          if rtok == "nil" || rtok == "eof" then
+            match Sonic.Spec.Loop.lookup dq k [] with
+            | l :: rest =>
+              dq := Sonic.Spec.Loop.update dq k rest
+              let n := ((Driver.attr? r "n").bind Driver.int?).getD 0
+              if n != ((min l len : Nat) : Int) then
+                let d := s!"key=loop.datagram-boundary event=[{ln.raw}] the read of a datagram socket completed with {n} bytes while the next queued datagram has {l} (buffer {len})"
+                if res.specFail.isNone then res := { res with specFail := some (i, d) } else res := { res with more := res.more ++ [d] }
+            | [] => pure ()
+        | none => pure ()
+      | _ => pure ()
       let ev? : Option Ev := match ln.toks with
         | "obj" :: k :: kind :: r :: _ => if r == "ok" then (nat? k).map (fun k => Ev.obj k (parseKind kind)) else none
         | toks => parseEv toks
